@@ -4,7 +4,6 @@ package main
 
 import (
 	"crypto/sha256"
-	"fmt"
 
 	specqbft "github.com/bloxapp/ssv-spec/qbft"
 	spectypes "github.com/bloxapp/ssv-spec/types"
@@ -12,7 +11,7 @@ import (
 	"github.com/bloxapp/ssv/zz_verif/lib/hx"
 )
 
-func valueBytes(k int) []byte { return []byte(fmt.Sprintf("consensus-value-%03d", k)) }
+// valueBytes: prodcfg.go
 
 var badValue = []byte("rejected-by-value-check")
 
